@@ -28,7 +28,8 @@ TEXTS = ['x', 'x y', 'abc', 'a"b', "it's", 'a\\b', 'é', '\n', ' ', ')', ',', 'a
          'ünï', '\\', '""', 'a\nb', '<', '&amp;', 'א', '\t', ' \t\r\n\f',
          # white space to Python's \s but not to CSS (content for :empty, ordinary characters for needles)
          '\xa0', '\u2003', '\x0b', ' \x1f\n', '\x85', '\u3000\n', '\u2028']
-NAMES = ('a', 'b', 'p', 'div', 'iframe', 'span', 'script', 'style', 'rt')
+# svg: html5lib puts what it contains (an `iframe` too) into the SVG namespace - such an iframe is an ordinary element
+NAMES = ('a', 'b', 'p', 'div', 'iframe', 'span', 'script', 'style', 'rt', 'svg')
 
 
 def text_of(ctx, el):
